@@ -126,6 +126,23 @@ def runC03 (t : Tier) : Emit Unit := do
         if t.quick && cut % 13 != 0 && cut % 188 > 2 then continue
         let (size, kind) ← liftGen (pick [(0, ReaderKind.seek), (188, .seek), (0, .bufio), (188, .plain)])
         emit "C03" (outcomesCase (bs.take cut) { size := size, kind := kind } "truncated")
+  -- tables whose descriptors declare lengths that do not match their tag (every tag x length 0..6), carried in a PMT on an
+  -- announced PID and in an SDT: through the whole demuxer
+  let m0 ← liftGen (smallStream 0)
+  let patUnit := (m0.units.filter (·.pid == 0)).headD default
+  for tag in knownDescriptorTags ++ [0x90, 0x01] do
+    for dl in [0, 1, 2, 3, 4, 5, 6] do
+      let junk ← liftGen (randBytes 12)
+      let descs : Bytes := [tag, dl] ++ junk.take dl
+      -- PMT section with this program_info loop (CRC computed correctly: the parser runs before the CRC check anyway)
+      let body : Bytes := [0x00, 0x01, 0xc1, 0x00, 0x00, 0xe1, 0x00, 0xf0, descs.length] ++ descs ++ junk
+      let sec0 : Bytes := [0x02, 0xb0, body.length + 4] ++ body
+      let sec := sec0 ++ be32 (computeCRC32 sec0)
+      let unit : Bytes := [0] ++ sec
+      let u : Spec.TSUnit := { pid := 0x1000, payload := unit, data := [], psi := true, chunks := [unit.length] }
+      let st : Spec.StreamModel := { units := [patUnit, u], schedule := [] }
+      emit "C03" (outcomesCase st.bytes {} "descriptor-length-vs-tag")
+      emit "C03" (demuxCase st.bytes { view := .seq } none none "descriptor-length-vs-tag-seq")
   -- with a skipper and with custom parsers
   for i in [0:(if t.quick then 6 else 30)] do
     let m ← liftGen (smallStream i)
